@@ -36,7 +36,7 @@ ASSUMPTIONS = [
 FLOORS = {"triples_compared": (6000, 100000), "fail_together": (1500, 30000), "succeed_together": (2000, 40000), "warm_triples": (2000, 40000),
           "partial_body_cases": (200, 4000), "validate_keys_body_checks": (6000, 100000),
           "datasetclass_triples": (1000, 20000), "datasetclass_fail_together": (150, 3000),
-          "pipeline_triples": (1000, 20000), "pipeline_fail_together": (50, 1000), "default_body_checks": (1200, 12000)}
+          "pipeline_triples": (1000, 20000), "pipeline_fail_together": (50, 1000), "default_body_checks": (1200, 12000), "lazy_coalesce_triples": (96, 96)}
 SHARDS_QUICK = 4
 FEATURES = {"domains": False, "allopts": False}
 
@@ -226,6 +226,35 @@ def datasetclass_triples(ctx, i):
         ctx.nontrivial(spec_hash(["dc", sorted(members.items()), o]))
 
 
+def lazy_coalesce_members(ctx):
+    """Coalesce members whose value is lazy (a bare Iter / Map / Map.values): the member evaluate() uses is the one
+    validate() and keys() chose - consuming the result cannot fail for an option validate() did not ask for."""
+    from labrea import Coalesce, Iter, Map, Option
+
+    lazy = {
+        "iter": lambda: Iter(Option("X"), Option("Y")),
+        "map": lambda: Map(Option("B"), {"A": Option("XS")}),
+        "map-values": lambda: Map(Option("B"), {"A": Option("XS")}).values,
+        "iter-of-map": lambda: Iter(Map(Option("B"), {"A": Option("XS")}).values, Option("X")),
+    }
+    dicts = [{}, {"X": 1}, {"X": 1, "Y": 2}, {"XS": [3, 6]}, {"XS": [3, 6], "B": "b"}, {"XS": [], "X": 0}, {"X": 1, "XS": [1], "B": 0, "Y": None}, {"F": "given"}]
+    for name, make in lazy.items():
+        for shape in ("lazy-first", "lazy-middle", "lazy-last"):
+            fb = Option("F", "fallback")
+            members = {"lazy-first": [make(), fb], "lazy-middle": [Option("Q"), make(), fb], "lazy-last": [Option("Q"), make()]}[shape]
+            c = Coalesce(*members)
+            for o in dicts:
+                res = {op: observe(getattr(c, op), copy.deepcopy(o)) for op in ("validate", "keys", "evaluate")}  # observe() consumes lazy results
+                ctx.evaluations += 3
+                ctx.count("lazy_coalesce_triples")
+                bits = {k: v[0] == "ok" for k, v in res.items()}
+                if len(set(bits.values())) != 1:
+                    ctx.violation("operations-disagree", f"coalesce with a lazy member ({name}, {shape}) on {o}: validate {short(res['validate'], 60)} / keys {short(res['keys'], 60)} / "
+                                  f"evaluate-and-consume {short(res['evaluate'], 80)}", {"family": "lazy-coalesce", "member": name, "shape": shape, "options": o})
+                    return
+                ctx.nontrivial(spec_hash(["lazy-coalesce", name, shape, o]))
+
+
 def default_body_family(ctx, i):
     """Options whose default is a dataset (with / without a domain, a chained default, a namespace member), key absent or
     present, cold and warm: validate() and keys() choose no branch here, so they run no dataset body; evaluate() runs
@@ -318,6 +347,7 @@ def run(ctx):
     if ctx.shard == 0:
         known_finding_reproducer(ctx)
         coalesce_reproducer(ctx)
+        lazy_coalesce_members(ctx)
     # (a dict-valued option referenced mid-string is the recorded C09 finding: str(dict) has braces)
     dicts = [d for d in directed.dictionaries() if U.closed(d) and not any(isinstance(d.get(k), dict) for k in ("A", "B", "C"))
              and not any(isinstance(v2, dict) for v in d.values() if isinstance(v, dict) for v2 in v.values())]
@@ -352,7 +382,9 @@ def run(ctx):
 
 def replay(ctx, rep):
     w = rep["witness"]
-    if w.get("family") == "default-body":
+    if w.get("family") == "lazy-coalesce":
+        lazy_coalesce_members(ctx)
+    elif w.get("family") == "default-body":
         ctx.shard, ctx.shards = w.get("shard", 0), w.get("shards", 1)
         default_body_family(ctx, w["case"])
     elif w.get("family") == "pipeline":
